@@ -39,7 +39,8 @@ ASSUMPTIONS = [
     'the scripted C++ cache mirrors PyArrayCache (get -> nullptr on a miss or when broken, set ignored when broken)',
     'SliceGenerator (lazy slices of a VirtualArray) is exercised on the implementation side (virtual == eager) but is '
     'not part of the Coq model; the model replays the calls that reach the scripted generator/cache',
-    'the VirtualArray node itself carries no parameters; a node directly below a parameter wrapper is not wrapped',
+    'the VirtualArray node carries the parameters of the node it stands for; a node directly below a parameter wrapper is '
+    'not wrapped; char/byte nodes are not wrapped (validityerror: "__array__ = char only allowed for NumpyArray")',
     'generator determinism: the scripted generator returns the same node whenever it succeeds',
     'repartition targets are non-empty, non-negative, non-decreasing and end at the length (other targets are outside '
     'the property; a small malformed stream is run and only reported in the evidence)',
@@ -148,6 +149,8 @@ def gen_op(rng, t, n, generic=False):
              'at', 'range', 'range', 'carry', 'reduce', 'sort', 'argsort', 'combinations', 'rpad', 'rpadclip',
              'materialize', 'field', 'fields', 'simplify', 'lazycarry']
     c = rng.choice(names)
+    if generic and c in ('carry', 'lazycarry'):
+        c = 'materialize'       # carry is an internal operation whose indices must be in range of an unknown length
     if c in ('field', 'fields'):
         fs = rec_fields(t) if not generic else []
         if not fs:
